@@ -51,7 +51,7 @@ func exprPrec(n *exprNode) int {
 		return 8
 	case "+", "-":
 		return 7
-	case "=", "<>", "<", "<=", ">", ">=", "isnull", "isnotnull", "between", "notbetween", "in", "notin", "any", "all", "ister":
+	case "=", "<>", "<", "<=", ">", ">=", "isnull", "isnotnull", "between", "notbetween", "in", "notin", "any", "all", "ister", "anyempty", "allempty", "inempty", "notinempty":
 		return 5
 	case "NOT":
 		return 4
@@ -117,6 +117,12 @@ func exprText(n *exprNode, style string) string {
 		return operand(n.L, 6) + kw + exprText(n.R, style) + ", " + exprText(n.R2, style) + ")"
 	case "any", "all":
 		return operand(n.L, 6) + " " + n.Cmp + " " + strings.ToUpper(n.Op) + " (SELECT " + exprText(n.R, style) + " UNION ALL SELECT " + exprText(n.R2, style) + ")"
+	case "anyempty", "allempty":
+		return operand(n.L, 6) + " " + n.Cmp + " " + strings.ToUpper(strings.TrimSuffix(n.Op, "empty")) + " (SELECT 1 WHERE FALSE)"
+	case "inempty":
+		return operand(n.L, 6) + " IN (SELECT 1 WHERE 1 = 0)"
+	case "notinempty":
+		return operand(n.L, 6) + " NOT IN (SELECT 1 WHERE 1 = 0)"
 	case "ister":
 		w := map[string]string{"T": "TRUE", "F": "FALSE", "U": "UNKNOWN"}[n.W]
 		if n.Neg {
